@@ -108,7 +108,7 @@ def run_impl(ctx, tier=None):
 def to_coq(c):
     return "mk %s %s %s %s %s %s %s %s %s" % (
         vlib.nlit(c["monoid"]), vlib.nlit(c["par"]), vlib.nlit(c["mode"]),
-        ("(List.map Z.of_nat (List.seq 1 (N.to_nat %d)))" % c["n"]) if c.get("n") else vlib.zlist(c["input"]),
+        ("(upto %d%%N)" % c["n"]) if c.get("n") else vlib.zlist(c["input"]),
         vlib.zlist(c["observed"]), vlib.blit(c["closed"]), vlib.zlist(c["pfold"]), vlib.blit(c["pclosed"]), vlib.zlit(c["loop"]))
 
 
